@@ -269,6 +269,15 @@ def _validate(op: Dict[str, Any], sim: Sim, world, pristine) -> None:
     if op.get("as_df"):
         import pandas as pd
         arg = pd.DataFrame(data)
+        mode = op.get("s", 0) % 3
+        if mode == 1 and len(data) > 1:
+            order = list(range(len(data)))
+            _random.Random(op.get("s", 0)).shuffle(order)
+            # same rows in the same positions, but the integer index labels are a permutation (as after sort/sample)
+            arg.index = order
+            sim.probe("dataframe_with_permuted_index")
+        elif mode == 2:
+            arg.index = [10 + 3 * i_ for i_ in range(len(data))]
     res = AAMValidator.validate_smiles(arg, "ground_truth", ["m1", "m2"], op["method"], ia, op["n_jobs"], 0, it)
     if op["n_jobs"] > 1:
         sim.probe("validate_parallel")
